@@ -239,9 +239,10 @@ class JSONRPCMessageWrapper:
             raise ValueError("Unknown message type")
 
     def model_dump_json(self, **kwargs) -> str:
-        """Dump as JSON."""
+        """Dump as JSON (absent members are omitted unless asked otherwise, as JSONRPCMessage does)."""
         import json
 
+        kwargs.setdefault("exclude_none", True)
         return json.dumps(self.model_dump(**kwargs))
 
     def is_request(self) -> bool:
